@@ -124,13 +124,13 @@ func (c05) Build(tier string, seed uint64) []any {
 	}
 	nGrid, nRand := 300, 10
 	if th {
-		nGrid, nRand = 3200, 150
+		nGrid, nRand = 9600, 600
 	}
 	for i := 0; i < nGrid; i++ {
 		r := gen.Sub(seed, "C05", "grid", i)
 		c := &c05Case{Gen: "grid"}
 		if th {
-			c.W, c.H = 1+i%40, 1+i/40
+			c.W, c.H = 1+i%40, 1+(i/40)%80
 		} else {
 			c.W, c.H = 1+r.Intn(40), 1+r.Intn(80)
 		}
